@@ -651,7 +651,9 @@ func UnpackRRWithHeader(h RR_Header, msg []byte, off int) (rr RR, off1 int, err 
 		return rr, off, nil
 	}
 
-	off, err = rr.unpack(msg, off)
+	// The RDATA ends at end: the field decoders take the end of msg for the
+	// end of the RDATA, as they do when called through UnpackRR.
+	off, err = rr.unpack(msg[:end], off)
 	if err != nil {
 		return nil, end, err
 	}
